@@ -3,6 +3,7 @@ package gen
 import (
 	"fmt"
 	"strings"
+	"sync"
 	"unicode"
 
 	"pgregory.net/rapid"
@@ -252,4 +253,70 @@ func HasNFKDSpace(s string) bool {
 		}
 	}
 	return false
+}
+
+var (
+	sharedMu    sync.Mutex
+	sharedCache = map[[2]ref.Lang][]int{}
+)
+
+// SharedIndices returns the indices (in a's list) of the words that also occur in b's list.
+func SharedIndices(a, b ref.Lang) []int {
+	sharedMu.Lock()
+	defer sharedMu.Unlock()
+	k := [2]ref.Lang{a, b}
+	if v, ok := sharedCache[k]; ok {
+		return v
+	}
+	var out []int
+	for i, w := range ref.Golden(a) {
+		if _, ok := ref.WordIndex(b, w); ok {
+			out = append(out, i)
+		}
+	}
+	sharedCache[k] = out
+	return out
+}
+
+// SharedWordSentence draws a sentence that is valid in language a and consists only of words
+// that also belong to language b's list (English/French share 100 words at different indices, the
+// two Chinese lists 1275): under b every token is known, so only the checksum (or nothing) is
+// wrong. ok is false when the two lists share too few words.
+func SharedWordSentence(a, b ref.Lang) *rapid.Generator[[]int] {
+	return rapid.Custom(func(t *rapid.T) []int {
+		shared := SharedIndices(a, b)
+		if len(shared) < 24 {
+			return nil
+		}
+		isShared := map[int]bool{}
+		for _, i := range shared {
+			isShared[i] = true
+		}
+		n := rapid.SampledFrom([]int{12, 12, 15, 18}).Draw(t, "n")
+		for attempt := 0; attempt < 60; attempt++ {
+			prefix := make([]int, n-1)
+			for i := range prefix {
+				prefix[i] = shared[rapid.IntRange(0, len(shared)-1).Draw(t, "w")]
+			}
+			for _, last := range ref.SolveLast(prefix) {
+				if isShared[last] {
+					return append(prefix, last)
+				}
+			}
+		}
+		return nil
+	})
+}
+
+// SharedPairs lists the ordered language pairs whose lists share at least 24 words.
+func SharedPairs() [][2]ref.Lang {
+	var out [][2]ref.Lang
+	for a := ref.Lang(0); a < ref.NumLangs; a++ {
+		for b := ref.Lang(0); b < ref.NumLangs; b++ {
+			if a != b && len(SharedIndices(a, b)) >= 24 {
+				out = append(out, [2]ref.Lang{a, b})
+			}
+		}
+	}
+	return out
 }
